@@ -321,6 +321,12 @@ def rule_polarity(repo: Repo, rid: str = "C01.polarity") -> RuleResult:
                 # are evaluated under that valuation (constants, conditional expressions, locals such as `is_positive = head != 'not'`)
                 verdicts = []
                 fixed = ispos is None or isinstance(ispos, ast.Constant)
+                if not fixed:
+                    try:
+                        tp = p.trace(ispos)     # a helper parameter bound to a constant at this call site
+                        fixed = len(tp) == 1 and all(len(x) == 1 and x[0] in ("const:True", "const:False") for x in tp)
+                    except KeyError:
+                        pass
                 for is_not, seen_ in ((True, r_not), (False, r_pos)):
                     if cn not in seen_:
                         continue
@@ -689,6 +695,7 @@ def rule_leftover(repo: Repo, rid: str, specs: List[str]) -> RuleResult:
             top = loop_head
             while g.loop_of.get(top) is not None:
                 top = g.loop_of[top]
+            seeds = {m for m, l in g.succ[top] if l != "iter"}
             after = C.reachable_from(g, top, follow=lambda a, b, l: not (a == top and l == "iter"))
             # the statements of the loop (syntactically: a `break` leaves the loop, what follows it is not "in the loop")
             inloop = set()
@@ -697,6 +704,7 @@ def rule_leftover(repo: Repo, rid: str, specs: List[str]) -> RuleResult:
                     nx = g.node_of(x)
                     if nx is not None:
                         inloop.add(nx)
+            seeds |= {m for n_ in inloop for m, _l in g.succ[n_] if m not in inloop and m != top}
             after = after | {m for n_ in inloop for m, _l in g.succ[n_] if m not in inloop and m != top}
             after = set().union(*[C.reachable_from(g, a_) for a_ in after]) if after else after
             use_nodes = set()
@@ -720,7 +728,10 @@ def rule_leftover(repo: Repo, rid: str, specs: List[str]) -> RuleResult:
                    [n for n, _ in g.pred[g.exit] if n in (after - inloop) and g.kind[n] != "return"]
             if top in [n for n, _ in g.pred[g.exit]]:
                 outs.append(top)
-            flushed[acc] = bool(use_nodes) and all((dom[o] & use_nodes) or o in use_nodes for o in outs)
+            by_dominance = bool(use_nodes) and all((dom[o] & use_nodes) or o in use_nodes for o in outs)
+            # ... or, when several statements share the work (one per branch), no way from the end of the loop to the function's exit avoids them all
+            escapes = any(g.exit in C.reachable_from(g, s_, avoid=use_nodes) for s_ in seeds if s_ not in use_nodes) or (g.exit in seeds)
+            flushed[acc] = bool(use_nodes) and (by_dominance or not escapes)
         if all(flushed.values()):
             r.ok({"function": f.qn, "accumulators": sorted(accs), "flushed_after_loop": True})
         else:
@@ -795,12 +806,17 @@ def rule_typedlist(repo: Repo, rid: str, specs: List[str], lookup_required: bool
             r.site(f"{f.qn} [{acc}: type lookup]")
             listparam = [x for x in f.params if x != f.self_name][0]
             good = bad = None
-            for fl in flush:
-                st = g.stmt[fl]
-                for sub in ast.walk(st if not isinstance(st, ast.For) else ast.Module(body=st.body, type_ignores=[])):
+            # the lookup may sit in the flushing statement or further on (the group handed over in a record, typed by a helper)
+            scopes = [g.stmt[fl] if not isinstance(g.stmt[fl], ast.For) else ast.Module(body=g.stmt[fl].body, type_ignores=[]) for fl in flush]
+            scopes.append(f.node)
+            for scope in scopes:
+                for sub in ast.walk(scope):
                     if isinstance(sub, ast.Subscript) and not isinstance(sub.slice, ast.Slice):
-                        tr_key = p.trace(sub.slice)
-                        tr_map = p.trace(sub.value)
+                        try:
+                            tr_key = p.trace(sub.slice)
+                            tr_map = p.trace(sub.value)
+                        except KeyError:
+                            continue        # an annotation
                         if any(x[0] == f"param:{listparam}" for x in tr_key) and any("types" in "/".join(x) for x in tr_map):
                             good = sub
                     if isinstance(sub, ast.Call) and isinstance(sub.func, ast.Attribute) and sub.func.attr == "get" and len(sub.args) == 2 and \
